@@ -124,19 +124,31 @@ def inject_faults(ch, script, g, ended, netlistable):
         done = [op[1] for op in out[:at] if op[0] == "end"]
         victim_top = ch.pick(done, "victim_top")
         hier = sorted(hierarchy(design, [victim_top]))
-        kind = ch.weighted([(4, "boundary"), (3, "mid"), (3, "design"), (3, "parent_repair")], "fkind")
+        kind = ch.weighted([(4, "boundary"), (3, "mid"), (3, "design"), (3 if tainted else 7, "parent_repair")], "fkind")
         block = []
         call = gen_call(ch, [victim_top], netlistable)
         if kind == "parent_repair":
             # only as the first failure of a session: its edit must hit a module that is on the
             # failing path (and therefore refused from then on), never one that an earlier failed
             # call merely left partly elaborated (contested ground)
-            pr = plan_parent_repair(ch, out[:at], design, hier, fno) if not tainted else None
+            pr = None
+            if not tainted:
+                # any finished top whose hierarchy offers a (parent, sub-module) pair will do
+                for vt in [victim_top] + [t for t in done if t != victim_top]:
+                    hier_ = sorted(hierarchy(design, [vt]))
+                    pr = plan_parent_repair(ch, out[:at], design, hier_, fno)
+                    if pr is not None:
+                        if vt != victim_top:
+                            victim_top, hier = vt, hier_
+                            call = gen_call(ch, [victim_top], netlistable)
+                        break
             if pr is None:
                 kind = "boundary"
             else:
                 offender, parent, repair_ops = pr
-                block.append(["fault", "boundary", ch.rint(1, seams.DEFAULT_NPASSES, "pos"), offender, 0, label])
+                # mostly late: the parent has then been through the early passes, which its edit needs again
+                pos = ch.pick([ch.rint(1, seams.DEFAULT_NPASSES, "pos"), ch.rint(6, seams.DEFAULT_NPASSES, "poslate"), ch.rint(6, seams.DEFAULT_NPASSES, "poslate")], "poswhich")
+                block.append(["fault", "boundary", pos, offender, 0, label])
                 block.append(call)
                 if ch.chance(1, 2):
                     block.append(list(call))  # retry unchanged first
